@@ -16,7 +16,7 @@ func init() {
 		Rule: "security configurations: schemes A,B drawn from {http bearer, apiKey header, apiKey query, http basic, oauth2, apiKey cookie, openIdConnect}, global in {none,[A],[A|B]}, and per spec path items realising every per-operation requirement {inherit, [], [A], [B], [A|B], [A&B]} on single-operation paths plus 2-4 paths whose 2-3 operations draw their own; per operation ALL 9 vectors of {absent, invalid, valid} credentials x {all authenticators installed, A nil, B nil}; " +
 			"oracle: reference evaluator (effective requirement = own list else global; admitted iff some alternative has all schemes supported, installed, supplied and accepted): admitted => handler runs once and sees the request context returned by an accepting authenticator; otherwise 401 and no handler; " +
 			"non-trivial = secured operation or request carrying a credential; distinct by (spec, operation, credential vector, nil mask)",
-		Assume: []string{"a spec goag refuses to generate is an allowed outcome", "bearer credentials are sent as 'Authorization: Bearer <token>'", "empty alternatives ({}) are outside the enumerated domain"},
+		Assume:    []string{"a spec goag refuses to generate is an allowed outcome", "bearer credentials are sent as 'Authorization: Bearer <token>'", "empty alternatives ({}) are outside the enumerated domain"},
 		Main:      c11Main,
 		MinNonTrv: 500,
 	})
@@ -25,7 +25,7 @@ func init() {
 		Rule: "router-family specs (template sets, method subsets incl. explicit OPTIONS, base-path forms, cors on/off) with bearer/apiKey security on some operations x middleware stacks of length 0..4 x {routed public, routed secured with absent/invalid/valid credentials, unrouted, spec-file, preflight/undeclared method} requests, every routed request served twice on the same API value; " +
 			"oracle: per-request trace = enter0..enter(k-1), auth*, handler (or status 401), leave(k-1)..leave0, each exactly once; every middleware sees SchemaPath = the operation's template; unrouted, spec-file and preflight requests produce no enter event; " +
 			"non-trivial = stack length >=2 on a routed request, or a bypassing request with a non-empty stack; distinct by (spec, class, stack length, request)",
-		Assume: []string{"whether a secured request is admitted is C11's question; C16 only demands the order of events"},
+		Assume:    []string{"whether a secured request is admitted is C11's question; C16 only demands the order of events"},
 		Main:      c16Main,
 		MinNonTrv: 500,
 	})
@@ -34,7 +34,7 @@ func init() {
 		Rule: "CORS-family specs: 1-5 templates, method subsets (incl. explicit OPTIONS), header parameters in several letter cases at path-item and operation level, bearer / apiKey-header / apiKey-query security (global, per operation, public override) x cors on/off x CORSHandler set/nil; one OPTIONS request per declared path; " +
 			"oracle: expected(path) = (set of declared methods, set of canonicalised header parameters + Authorization for bearer + canonical apiKey header names): cors on, no own OPTIONS, handler set => CORSHandler constructed exactly once with exactly these sets (no duplicates, order free) and its response is served without user middlewares; own OPTIONS => its stub runs and no CORS handler; otherwise not found; " +
 			"non-trivial = path with >=2 methods or >=1 header/security contribution; distinct by (spec, path, state, handler set)",
-		Assume: []string{"paths whose concrete instance is shadowed by a more literal template, and OPTIONS served by a less literal template (method fallback), are skipped"},
+		Assume:    []string{"paths whose concrete instance is shadowed by a more literal template, and OPTIONS served by a less literal template (method fallback), are skipped"},
 		Main:      c17Main,
 		MinNonTrv: 100,
 	})
